@@ -5,17 +5,20 @@ per case.  Imports the model only (no Mathlib), so it links as a `lean_exe`.
 Grammar (space separated tokens; see DESIGN.md §3):
   line   := id S op
   S      := Q | F                         -- scalars: `p/q` rationals | 16 hex digits of an f64
-  list   := n v₁ … vₙ        shape := r d₁ … d_r        ndarr := shape list
-  op     := mono list | lower list q
-          | i1 xspec ndarr strat entry
-          | i2 xspec xspec ndarr ext entry2
-  xspec  := defx | x list
+  list   := n v₁ … vₙ        shape := r d₁ … d_r
+  vec    := lay list         ndarr := lay shape list    buffer := lay shape
+  lay    := c | f | s<k> | rev | perm | w     (memory layout; steers the Rust runner only)
+  dtag, qtag := sta | dyn                     (static / dynamic dimension types; runner only)
+  op     := mono vec | lower vec q
+          | i1 dtag xspec ndarr strat entry
+          | i2 dtag xspec xspec ndarr ext entry2
+  xspec  := defx | x vec
   strat  := lin b | spl b bc
   bc     := nak | nat | cla | per | ind shape n rb₁ … rbₙ
   rb     := nak | nat | cla | mix sb sb        sb := nak | nat | cla | fd v | sd v
-  entry  := build | scalar q | single q | into q shape | array shape list | ainto shape list shape
-  entry2 := build | scalar x y | single x y | into x y shape
-          | array shape list shape list | ainto shape list shape list shape
+  entry  := build | scalar q | single q | into q buffer | array qtag ndarr | ainto qtag ndarr buffer
+  entry2 := build | scalar x y | single x y | into x y buffer
+          | array qtag ndarr ndarr | ainto qtag ndarr ndarr buffer
 -/
 import NdInterp.Model.Basic
 import NdInterp.Model.Vector
@@ -97,7 +100,22 @@ def scalarTok : P α := do
   | some v => pure v
   | none => throw s!"bad scalar {t}"
 
+/-- a memory-layout / dimension-type tag: it steers the Rust runner, the model ignores it
+    (results do not depend on it: C13, C19) -/
+def tagTok : P Unit := do let _ ← tok; pure ()
+
+/-- `vec := lay n v₁ … vₙ` -/
+def vecTok : P (List α) := do
+  tagTok
+  listOf (scalarTok (α := α))
+
+/-- `buffer := lay shape` -/
+def bufTok : P (List Nat) := do
+  tagTok
+  shapeTok
+
 def ndarrTok : P (NdArr α) := do
+  tagTok
   let shape ← shapeTok
   let flat ← listOf (scalarTok (α := α))
   if flat.length ≠ shapeSize shape then throw "ndarr: contents do not match shape"
@@ -106,7 +124,7 @@ def ndarrTok : P (NdArr α) := do
 def xspecTok : P (Option (List α)) := do
   match (← tok) with
   | "defx" => pure none
-  | "x" => do let l ← listOf (scalarTok (α := α)); pure (some l)
+  | "x" => do let l ← vecTok (α := α); pure (some l)
   | t => throw s!"bad xspec {t}"
 
 def sbTok : P (SingleBoundary α) := do
@@ -192,14 +210,16 @@ def runEntry1 (it : Interp1 α) : P String := do
     pure (fmtArr (epInterp trailing it.at q))
   | "into" => do
     let q ← scalarTok (α := α)
-    let bs ← shapeTok
+    let bs ← bufTok
     pure (fmtArr (epInterpInto trailing it.at q bs))
   | "array" => do
+    tagTok
     let qs ← ndarrTok (α := α)
     pure (fmtArr (epArray trailing it.at qs.shape qs.flat))
   | "ainto" => do
+    tagTok
     let qs ← ndarrTok (α := α)
-    let bs ← shapeTok
+    let bs ← bufTok
     pure (fmtArr (epArrayInto trailing it.at qs.shape qs.flat bs))
   | t => throw s!"bad entry {t}"
 
@@ -216,15 +236,17 @@ def runEntry2 (it : Interp2 α) : P String := do
     pure (fmtArr (epInterp trailing f (x, y)))
   | "into" => do
     let x ← scalarTok (α := α); let y ← scalarTok (α := α)
-    let bs ← shapeTok
+    let bs ← bufTok
     pure (fmtArr (epInterpInto trailing f (x, y) bs))
   | "array" => do
+    tagTok
     let qx ← ndarrTok (α := α); let qy ← ndarrTok (α := α)
     if qx.shape ≠ qy.shape then pure "panic"
     else pure (fmtArr (epArray trailing f qx.shape (qx.flat.zip qy.flat)))
   | "ainto" => do
+    tagTok
     let qx ← ndarrTok (α := α); let qy ← ndarrTok (α := α)
-    let bs ← shapeTok
+    let bs ← bufTok
     if qx.shape ≠ qy.shape then pure "panic"
     else pure (fmtArr (epArrayInto trailing f qx.shape (qx.flat.zip qy.flat) bs))
   | t => throw s!"bad entry {t}"
@@ -232,15 +254,16 @@ def runEntry2 (it : Interp2 α) : P String := do
 def runOp : P String := do
   match (← tok) with
   | "mono" => do
-    let xs ← listOf (scalarTok (α := α))
+    let xs ← vecTok (α := α)
     pure (fmtMono (monotonicProp xs))
   | "lower" => do
-    let xs ← listOf (scalarTok (α := α))
+    let xs ← vecTok (α := α)
     let q ← scalarTok (α := α)
     match lowerIndex xs q with
     | .ok i => pure s!"idx {i}"
     | .error e => pure (fmtFault e)
   | "i1" => do
+    tagTok
     let x ← xspecTok (α := α)
     let data ← ndarrTok (α := α)
     let spec ← stratTok (α := α)
@@ -248,6 +271,7 @@ def runOp : P String := do
     | .error e => pure (fmtFault e)
     | .ok it => runEntry1 it
   | "i2" => do
+    tagTok
     let x ← xspecTok (α := α)
     let y ← xspecTok (α := α)
     let data ← ndarrTok (α := α)
